@@ -622,6 +622,7 @@ Proof.
     destruct (ppath_eqb (parse_path t) (pf_rel f)) eqn:Eq.
     + apply (IH w _ blE D); [|exact Sf]. apply (InvP_drop D (f, RText t)); [apply skipped_p_of_eqb; exact Eq | exact I1].
     + destruct (contained (c_var c) (w_fs w) f (parse_path t)) as [[|]|]; try (intros E; discriminate E).
+      destruct (dest_parent_test (c_var c) (w_fs w) f (parse_path t)) as [[|]|]; try (intros E; discriminate E).
       destruct (parents_contained (w_fs w) f (parse_path t)) as [[|]|]; try (intros E; discriminate E).
       destruct (source_contained (w_fs w) f) as [[|]|]; try (intros E; discriminate E).
       destruct (renamer c w (pf_dir f) (pf_rel f) (parse_path t) false) as [w1 r1] eqn:R.
